@@ -112,6 +112,7 @@ func MustParseReader(r io.Reader, args ...any) (data any) {
 // pointed to by vp.
 func Unmarshal(data []byte, vp any, recomposer ...*alt.Recomposer) (err error) {
 	p := Parser{}
+	p.num.ForceFloat = true
 	var v any
 	if v, err = p.Parse(data); err == nil {
 		if 0 < len(recomposer) {
